@@ -16,6 +16,7 @@ History ops (task and path arguments are small integers; task i is `t<i>`, path 
     ['editKeep', p, cid]      change the content, keep the mtime (outside the checker's premise; informational stream only)
     ['redefine', t, {'deps': [p...], 'targets': [p...], 'uptodate': [item...]}]
                               item: ['const', b] ['none'] ['runOnce'] ['cfg', d] ['res', t'] ['shell', b] ['custom', b|None]
+                              optional: 'getargs': t' together with 'task_dep': [t'] (getargs={'v': (t', None)} + task_dep)
     ['run', {'sel': [t...]|None, 'always': b, 'cont': b, 'par': None|'process'|'thread',
              'plan': {str(t): {'ok': b, 'writes': [[p, cid]...], 'res': k|None}}}]
                               one `doit run`; `plan` says what each task's action does *if* it is executed
@@ -205,7 +206,7 @@ class World(object):
         for t in range(self.ntasks):
             d = self.defs[t]
 
-            def action(t=t):
+            def action(v=None, t=t):
                 pl = world.plan.get(str(t)) or {'ok': True, 'writes': [], 'res': None}
                 for p, cid, mtime in pl['writes']:
                     world.write(p, cid, mtime)
@@ -216,9 +217,15 @@ class World(object):
                 return True
 
             def creator(d=d, t=t, action=action):
-                return {'actions': [action], 'file_dep': [fname(p) for p in d['deps']],
-                        'targets': [fname(p) for p in d['targets']],
-                        'uptodate': [world._uptodate(i) for i in d['uptodate']]}
+                td = {'actions': [action], 'file_dep': [fname(p) for p in d['deps']],
+                      'targets': [fname(p) for p in d['targets']],
+                      'uptodate': [world._uptodate(i) for i in d['uptodate']]}
+                if d.get('task_dep'):
+                    td['task_dep'] = [tname(x) for x in d['task_dep']]
+                if d.get('getargs') is not None:
+                    # getargs from another task: doit adds an implicit result_dep(<task>) to `uptodate`
+                    td['getargs'] = {'v': (tname(d['getargs']), None)}
+                return td
             ns['task_' + tname(t)] = creator
         return ns
 
@@ -453,8 +460,13 @@ def run_history(case, stop_on_crash=True):
 # translation to the Lean driver
 
 def model_def(d):
-    return {'deps': list(d['deps']), 'targets': list(d['targets']),
-            'uptodate': [list(i) for i in d['uptodate']]}
+    """the model's view of a definition: `getargs` from task x is the uptodate item result_dep(x) that
+    Task._init_getargs appends (the harness always lists x in task_dep too, so x is processed first: without that the
+    implicit item is a *setup* dependency and the order of check and execution belongs to M1)"""
+    utd = [list(i) for i in d['uptodate']]
+    if d.get('getargs') is not None:
+        utd.append(['res', d['getargs']])
+    return {'deps': list(d['deps']), 'targets': list(d['targets']), 'uptodate': utd}
 
 
 def _fs_op(op):
@@ -648,10 +660,10 @@ def evaluate(cases, workdir=None):
     """run each case on the implementation, replay on the Lean model and the ghost machine, compare.
     Returns one Verdict per case."""
     common.use_repo()
-    if any(c.get('kind') == 'calc' for c in cases):
-        plain = [c for c in cases if c.get('kind') != 'calc']
+    if any(c.get('kind') in SCENARIOS for c in cases):
+        plain = [c for c in cases if c.get('kind') not in SCENARIOS]
         pv = iter(evaluate(plain, workdir) if plain else [])
-        return [evaluate_calc(c) if c.get('kind') == 'calc' else next(pv) for c in cases]
+        return [evaluate_calc(c) if c.get('kind') in SCENARIOS else next(pv) for c in cases]
     all_obs = []
     old = os.getcwd()
     base = workdir or common.scratch_dir('status')
@@ -839,17 +851,103 @@ CALC_SCRIPT = [('run', None), ('run', None), ('run', None), ('edit', 'util'), ('
                ('touch', 'main'), ('run', None), ('edit', 'main'), ('run', None), ('run', None)]
 
 
+def _scn_calc(case):
+    """scan (file_dep [main], its action returns {'file_dep': ['util']}), obj<i> (file_dep [main], calc_dep ['scan']).
+    util edited -> the consumers; main touched -> nothing under md5, everything under timestamp; main edited ->
+    everything."""
+    names = ['scan'] + ['obj%d' % i for i in range(case['consumers'])]
+
+    def mk(state):
+        ns = {'task_scan': lambda: {'actions': [lambda: {'file_dep': ['util']}], 'file_dep': ['main']}}
+        for i in range(case['consumers']):
+            ns['task_obj%d' % i] = lambda: {'actions': [lambda: True], 'file_dep': ['main'], 'calc_dep': ['scan']}
+        return ns
+
+    def effect(kind, arg):
+        if kind == 'edit':
+            return set(names) if arg == 'main' else set(names[1:])
+        return set(names) if case['checker'] == 'timestamp' else set()
+
+    if case['order'] == 'calc-first':
+        sel = names
+    elif case['order'] == 'consumer-first':
+        sel = names[1:] + names[:1]
+    else:
+        sel = []
+    return {'names': names, 'mk': mk, 'effect': effect, 'sel': sel, 'files': ['main', 'util'], 'script': CALC_SCRIPT}
+
+
+GROUP_SCRIPT = [('run', None), ('run', None), ('run', None), ('edit', 'main'), ('run', None), ('run', None),
+                ('edit', 'src0'), ('run', None), ('run', None), ('touch', 'main'), ('run', None), ('run', None)]
+
+
+def _scn_group(case):
+    """a task generator `grp` yielding `subs` sub-tasks (0 = an EMPTY group; sub-task i: file_dep [src<i>], its action
+    returns a string result that changes when src<i> is edited) and two consumers with a file_dep of their own:
+    `report` (uptodate [result_dep('grp')]) and `summary` (getargs from grp + task_dep [grp]).  The group task itself
+    has no criteria (always executed, not monitored).  main edited -> the consumers; src0 edited -> sub-task 0 and,
+    through the group result, the consumers; main touched -> consumers under timestamp only."""
+    k = case['subs']
+    subs = ['grp:s%d' % i for i in range(k)]
+    cons = ['report', 'summary']
+    names = subs + cons
+
+    def mk(state):
+        from doit.task import result_dep
+
+        def task_grp():
+            for i in range(k):
+                yield {'name': 's%d' % i, 'actions': [lambda i=i: 'res-%d-%d' % (i, state.get('src%d' % i, 0))],
+                       'file_dep': ['src%d' % i]}
+        return {'task_grp': task_grp,
+                'task_report': lambda: {'actions': [lambda: True], 'file_dep': ['main'], 'uptodate': [result_dep('grp')]},
+                'task_summary': lambda: {'actions': [lambda v=None: True], 'file_dep': ['main'],
+                                         'getargs': {'v': ('grp', None)}, 'task_dep': ['grp']}}
+
+    def effect(kind, arg):
+        if kind == 'edit' and arg == 'main':
+            return set(cons)
+        if kind == 'edit' and arg == 'src0':
+            return set(names) - set(subs[1:]) if k > 0 else set()
+        if kind == 'touch':
+            return set(cons) if case['checker'] == 'timestamp' else set()
+        return set()
+
+    return {'names': names, 'mk': mk, 'effect': effect, 'sel': [], 'files': ['main'] + ['src%d' % i for i in range(max(k, 1))],
+            'script': GROUP_SCRIPT}
+
+
+SCENARIOS = {'calc': _scn_calc, 'group': _scn_group}
+
+
+def group_cases(full):
+    out = []
+    n = 0
+    for subs in (0, 1, 2):
+        for par in (None, 'thread'):
+            for b in BACKENDS:
+                for ck in CHECKERS:
+                    n += 1
+                    if not full and not ((par is None and n % 3 == subs % 3) or (par == 'thread' and subs == 0 and n % 6 == 1)):
+                        continue
+                    out.append({'kind': 'group', 'backend': b, 'checker': ck, 'subs': subs, 'par': par,
+                                'ntasks': subs + 3, 'npaths': 2, 'ops': []})
+    return out
+
+
 def evaluate_calc(case):
-    """tasks: scan (file_dep [main], its action returns {'file_dep': ['util']}), obj<i> (file_dep [main],
-    calc_dep ['scan']).  Expected executions per run: first run everything; identical re-run nothing; util edited ->
-    the consumers only; main touched -> nothing under md5, everything under timestamp; main edited -> everything."""
+    """scripted scenario families outside M2 (calc_dep; groups as result_dep / getargs sources).  Every run of a script is
+    fully successful, so the set `pending` of tasks whose inputs changed since their last successful execution is known
+    by construction: a skipped task must not be in it (C03), an executed one must be (C04)."""
     common.use_repo()
     from doit.doit_cmd import DoitMain
     from doit.cmd_base import ModuleTaskLoader
+    scn = SCENARIOS[case['kind']](case)
+    names = scn['names']
     v = Verdict()
     v.obs = []
-    names = ['scan'] + ['obj%d' % i for i in range(case['consumers'])]
     clock = [T0]
+    state = {}
 
     def put(name, cid):
         clock[0] += 1
@@ -857,38 +955,27 @@ def evaluate_calc(case):
             f.write(content_of(cid))
         os.utime(name, ns=(clock[0] * NS, clock[0] * NS))
 
-    def scan():
-        return {'file_dep': ['util']}
-
-    def compile_():
-        return True
-
-    def mk():
-        ns = {'task_scan': lambda: {'actions': [scan], 'file_dep': ['main']}}
-        for i in range(case['consumers']):
-            ns['task_obj%d' % i] = lambda: {'actions': [compile_], 'file_dep': ['main'], 'calc_dep': ['scan']}
-        return ns
-
     old = os.getcwd()
-    d = common.scratch_dir('calc')
+    d = common.scratch_dir('scn')
     os.chdir(d)
     try:
-        put('main', 1)
-        put('util', 2)
-        cid = 3
+        cid = 1
+        for name in scn['files']:
+            put(name, cid)
+            cid += 1
         pending = set(names)          # tasks whose inputs changed since their last successful execution
-        for i, (kind, arg) in enumerate(CALC_SCRIPT):
+        for i, (kind, arg) in enumerate(scn['script']):
             if kind == 'edit':
                 cid += 2
                 put(arg, cid)
-                pending |= set(names) if arg == 'main' else set(names[1:])
+                state[arg] = state.get(arg, 0) + 1
+                pending |= scn['effect'](kind, arg)
                 v.obs.append({'kind': 'edit', 'what': arg})
                 continue
             if kind == 'touch':
                 clock[0] += 1
                 os.utime(arg, ns=(clock[0] * NS, clock[0] * NS))
-                if case['checker'] == 'timestamp':
-                    pending |= set(names)
+                pending |= scn['effect'](kind, arg)
                 v.obs.append({'kind': 'touch', 'what': arg})
                 continue
             argv = ['run']
@@ -896,11 +983,8 @@ def evaluate_calc(case):
                 argv += ['-n', '2', '-P', 'thread']
             elif case['par'] == 'process':
                 argv += ['-n', '2']
-            if case['order'] == 'calc-first':
-                argv += names
-            elif case['order'] == 'consumer-first':
-                argv += names[1:] + names[:1]
-            ns = mk()
+            argv += scn['sel']
+            ns = scn['mk'](state)
             rep = RecordingReporter()
             ns['DOIT_CONFIG'] = {'dep_file': 'deps-' + case['backend'], 'backend': case['backend'], 'verbosity': 0,
                                  'check_file_uptodate': case['checker'], 'reporter': rep}
@@ -910,14 +994,14 @@ def evaluate_calc(case):
                     code = DoitMain(ModuleTaskLoader(ns)).run(argv)
                 except BaseException as e:  # noqa
                     code = ['exc', type(e).__name__]
-            executed = sorted({n for k, n, _ in rep.events if k == 'execute_task'})
-            skipped = sorted({n for k, n, _ in rep.events if k == 'skip_uptodate'})
+            executed = sorted({n for k, n, _ in rep.events if k == 'execute_task' and n in names})
+            skipped = sorted({n for k, n, _ in rep.events if k == 'skip_uptodate' and n in names})
             v.obs.append({'kind': 'run', 'argv': argv, 'code': code, 'executed': executed, 'skipped': skipped,
                           'expected': sorted(pending), 'stderr': err.getvalue()[-300:] if code not in (0, None) else ''})
             v.n_exec += len(executed)
             v.n_skip += len(skipped)
             if code not in (0, None):
-                v.divergence = (i, 'calc_dep scenario: doit run exited %s' % (code,), executed, sorted(pending))
+                v.divergence = (i, '%s scenario: doit run exited %s' % (case['kind'], code), executed, sorted(pending))
                 break
             for n in executed:
                 if n not in pending:
@@ -933,6 +1017,15 @@ def evaluate_calc(case):
 
 
 def render_calc(case):
+    if case.get('kind') == 'group':
+        out = ['group scenario: backend=%s checker=%s sub-tasks=%d%s' % (
+            case['backend'], case['checker'], case['subs'], ' -n 2 -P thread' if case['par'] else ''),
+            "grp = task generator yielding %d sub-task(s) {name: s<i>, file_dep: [src<i>], action returns a result string}" % case['subs'],
+            "report = {file_dep: ['main'], uptodate: [result_dep('grp')]}",
+            "summary = {file_dep: ['main'], getargs: {'v': ('grp', None)}, task_dep: ['grp']}"]
+        for kind, arg in GROUP_SCRIPT:
+            out.append('doit run' if kind == 'run' else '%s %s' % (kind, arg))
+        return out
     out = ['calc_dep scenario: backend=%s checker=%s order=%s consumers=%d%s' % (
         case['backend'], case['checker'], case['order'], case['consumers'],
         '' if not case['par'] else ' -n 2' + (' -P thread' if case['par'] == 'thread' else '')),
@@ -949,7 +1042,7 @@ def render_calc(case):
 # rendering and shrinking
 
 def render(case):
-    if case.get('kind') == 'calc':
+    if case.get('kind') in SCENARIOS:
         return render_calc(case)
     extra = ''
     if case.get('scramble'):
@@ -968,9 +1061,12 @@ def render(case):
             out.append('%s f%d' % (k, op[1]))
         elif k == 'redefine':
             d = op[2]
-            out.append('t%d = {file_dep: %s, targets: %s, uptodate: %s}'
+            extra = ''
+            if d.get('getargs') is not None:
+                extra = ", getargs: {'v': ('t%d', None)}, task_dep: %s" % (d['getargs'], [tname(x) for x in d.get('task_dep', [])])
+            out.append('t%d = {file_dep: %s, targets: %s, uptodate: %s%s}'
                        % (op[1], [fname(p) for p in d['deps']], [fname(p) for p in d['targets']],
-                          [' '.join(str(x) for x in i) for i in d['uptodate']]))
+                          [' '.join(str(x) for x in i) for i in d['uptodate']], extra))
         elif k == 'run':
             s = op[1]
             flags = (' -a' if s.get('always') else '') + (' -c' if s.get('cont') else '') + \
@@ -1013,7 +1109,7 @@ def shrink(case, still_fails, max_evals=120):
             return False
 
     cur = json.loads(json.dumps(case))
-    if cur.get('kind') == 'calc':
+    if cur.get('kind') in SCENARIOS:
         return cur
 
     def used_tasks(c):
@@ -1022,6 +1118,8 @@ def shrink(case, still_fails, max_evals=120):
             if op[0] == 'redefine':
                 m = max(m, op[1] + 1)
                 m = max([m] + [i[1] + 1 for i in op[2]['uptodate'] if i[0] == 'res'])
+                if op[2].get('getargs') is not None:
+                    m = max(m, op[2]['getargs'] + 1)
             elif op[0] in ('forget', 'ignore', 'reset-dep'):
                 m = max([m] + [t + 1 for t in op[1]])
             elif op[0] == 'run':
@@ -1153,7 +1251,12 @@ def gen_def(rng, sh, t, prev=None):
         utd.append(_weighted(rng, UTD_POOL))
     if earlier and rng.random() < 0.3:
         utd.append(['res', rng.choice(earlier)])             # result_dep composition
-    return {'deps': deps, 'targets': targets, 'uptodate': utd}
+    d = {'deps': deps, 'targets': targets, 'uptodate': utd}
+    if earlier and rng.random() < 0.2:
+        x = rng.choice(earlier)                               # getargs + explicit task_dep on the same task
+        d['getargs'] = x
+        d['task_dep'] = [x]
+    return d
 
 
 def gen_plan(rng, sh, defs):
@@ -1480,7 +1583,7 @@ def nontrivial(case, v):
 
 def strip(case):
     return {k: case[k] for k in ('backend', 'checker', 'ntasks', 'npaths', 'ops', 'hashseed', 'scramble', 'kind', 'order', 'consumers',
-                                    'par') if k in case}
+                                    'par', 'subs') if k in case}
 
 
 def failing_predicate(prop):
@@ -1586,6 +1689,10 @@ def run_property(ctx, prop, n_random, exh_len, macro_len, parallel_share=0.0, n_
     ctx.extra['calc_dep_scenarios'] = len(calc)
     for c in calc:
         items.append(('calc-dep-scenario', c))
+    grp = group_cases(full=(ctx.tier != 'quick' or ctx.boost > 1))
+    ctx.extra['group_result_dep_scenarios'] = len(grp)
+    for c in grp:
+        items.append(('group-scenario', c))
     ex = exhaustive_cases(exh_len, macro_len, shared_len, utd_len)
     ex.sort(key=lambda c: len(c['word'].split(':')[-1]))
     ctx.extra['exhaustive_small_scope'] = {
